@@ -73,6 +73,7 @@ ONNX_NAME = {
     "Concat": "Concat", "Clip": "Clip", "ReduceSum": "ReduceSum", "Split": "Split", "TopK": "TopK",
     "If": "If", "Loop": "Loop", "Scan": "Scan", "Reshape": "Reshape",
     "Sub": "Sub", "Max": "Max", "Min": "Min", "Transpose": "Transpose",
+    "Sum": "Sum", "Mean": "Mean", "Einsum": "Einsum",
     "LabelEncoder": "LabelEncoder", "Scaler": "Scaler", "Binarizer": "Binarizer",
     "BitAnd": "BitwiseAnd", "BitOr": "BitwiseOr", "BitXor": "BitwiseXor", "BitNot": "BitwiseNot",
     "Gelu": "Gelu", "DFT": "DFT",
@@ -304,7 +305,14 @@ class _Gen:
             t = self.tyof(x)
             parts = [x] + [self.find_or_make(active, t, p_reuse=0.9) for _ in range(rng.choice([0, 1, 1, 2]))]
             rng.shuffle(parts)
-            self.add(rng.choice(["Max", "Min"]), parts, tys=[t])
+            kinds = ["Max", "Min"]
+            if t[0] == "f32":
+                kinds += ["Sum", "Sum"] + (["Mean"] if len(parts) in (1, 2) else [])
+            if len(t[1]) >= 1 and len(parts) >= 2:
+                kinds += ["Einsum"]
+            kind = rng.choice(kinds)
+            attrs = {"equation": ",".join(["..."] * len(parts)) + "->..."} if kind == "Einsum" else None
+            self.add(kind, parts, attrs=attrs, tys=[t])
             return
         if choice == "transpose":
             x = self.pick(self.usable(active, lambda u: not u[2] and concrete(u) and len(u[1]) >= 2))
@@ -739,6 +747,13 @@ def typecheck(prog) -> list[str]:
                 ts = [T(r) for r in ins]
                 ok = 1 <= len(ts) <= 3 and ts[0][0] in NUMERIC and not ts[0][2] and concrete(ts[0]) and all(
                     same_ty(t, ts[0]) for t in ts) and same_ty(out[0], ts[0])
+            elif op in ("Sum", "Mean", "Einsum"):
+                ts = [T(r) for r in ins]
+                ok = 1 <= len(ts) <= 4 and not ts[0][2] and concrete(ts[0]) and all(same_ty(t, ts[0]) for t in ts) and same_ty(out[0], ts[0])
+                if op == "Einsum":
+                    ok = ok and ts[0][0] in NUMERIC and len(ts[0][1]) >= 1 and len(ts) >= 2 and n["attrs"]["equation"] == ",".join(["..."] * len(ts)) + "->..."
+                else:
+                    ok = ok and ts[0][0] == "f32" and (op == "Sum" or len(ts) in (1, 2, 4))
             elif op == "Transpose":
                 x = T(ins[0])
                 pm = n["attrs"]["perm"]
@@ -955,6 +970,13 @@ def eval_numpy(prog, binding: dict[int, np.ndarray]):
                 for j in range(1, len(n["ins"])):
                     acc_ = (np.maximum if op == "Max" else np.minimum)(acc_, inp(j))
                 out = [np.array(acc_)]
+            elif op in ("Sum", "Mean", "Einsum"):
+                acc_ = inp(0)
+                for j in range(1, len(n["ins"])):
+                    acc_ = (acc_ * inp(j)) if op == "Einsum" else (acc_ + inp(j))
+                if op == "Mean":
+                    acc_ = acc_ / np.float32(len(n["ins"]))
+                out = [np.array(acc_, dtype=inp(0).dtype)]
             elif op == "Transpose":
                 out = [np.transpose(inp(0), n["attrs"]["perm"])]
             elif op == "Neg":
@@ -1206,10 +1228,13 @@ class Realised:
         self.extras = 0
         self.style = ""
         self.dims = "concrete"  # how the model inputs were declared
+        self.owned = 0  # caller-owned lists handed to constructors
+        self.mutations: dict[str, int] = {}  # … and what the caller did to them afterwards
         self.unobservable: Optional[str] = None  # set when a spox internal could not be read
 
 
-def realise(prog, rng: random.Random, style: str = "lazy", twins: bool = False, dims: str = "concrete") -> Realised:
+def realise(prog, rng: random.Random, style: str = "lazy", twins: bool = False, dims: str = "concrete",
+            mutate: bool = True) -> Realised:
     """Construct `prog` with spox.  `style` controls *how the program is written in Python*:
 
     lazy            every value is created on first demand (inside whichever callback needs it first,
@@ -1231,12 +1256,17 @@ def realise(prog, rng: random.Random, style: str = "lazy", twins: bool = False, 
     from spox import Tensor, argument
 
     initializer = None
+    initializers = []  # every route to an initializer this tree offers; chosen per node
     for modname in ("spox._future", "spox._graph", "spox"):
         try:
-            initializer = getattr(importlib.import_module(modname), "initializer")
-            break
+            f_ = getattr(importlib.import_module(modname), "initializer")
+            if f_ not in initializers:
+                initializers.append(f_)
         except Exception:  # noqa: BLE001
             continue
+    if initializers:
+        def initializer(arr):
+            return initializers[(arr.size + len(R.created)) % len(initializers)](arr)
     if initializer is None and any(n["op"] == "init" for n in prog["nodes"]):
         raise HarnessError("no `initializer` constructor found in spox._future / spox._graph")
 
@@ -1278,6 +1308,91 @@ def realise(prog, rng: random.Random, style: str = "lazy", twins: bool = False, 
         else:
             op.add(v, v)
 
+    # ---- caller-owned containers: every sequence of Vars handed to a constructor is a mutable `list` that the
+    # "caller" keeps and MUTATES after the constructor returned (append — also of the constructor's own
+    # result —, item assignment, clear, reverse, deletion) or re-uses (cleared and refilled) for the next
+    # call; the program's dataflow is what was constructed.  (own = hand out, disown = mutate afterwards)
+    mrng = random.Random(f"own:{style}:{len(nodes)}:{prog.get('opset', 17)}")
+    shared: list = []  # one list object re-used by consecutive calls
+    frames: list = [[]]  # lists handed to the constructor call in flight, per nested make()
+    busy = [False]  # the shared list is in the hands of a constructor that has not returned yet
+
+    def own(seq):
+        seq = list(seq)
+        if not mutate:
+            return seq
+        if not busy[0] and mrng.random() < 0.4:
+            shared.clear()  # the previous call's operands vanish from the list it was given
+            shared.extend(seq)
+            lst = shared
+            busy[0] = True
+        else:
+            lst = seq
+        frames[-1].append(lst)
+        R.owned += 1
+        return lst
+
+    def own_attr(values):
+        """A list-valued attribute handed over as the caller's own list (emptied / overwritten afterwards)."""
+        lst = list(values)
+        if mutate:
+            attr_lists.append(lst)
+        return lst
+
+    def own_array(arr):
+        """The ndarray behind a Constant / initializer is the caller's: overwritten after construction."""
+        if mutate:
+            arrays.append(arr)
+        return arr
+
+    attr_lists: list = []
+    arrays: list = []
+
+    def disown(outs):
+        for lst in attr_lists:
+            if lst and mrng.random() < 0.5:
+                lst[0] = lst[0] + 1
+            else:
+                lst.clear()
+            R.mutations["attribute-list"] = R.mutations.get("attribute-list", 0) + 1
+        attr_lists.clear()
+        for arr in arrays:
+            try:
+                if arr.size and arr.flags.writeable:
+                    arr[...] = arr.dtype.type(1) if arr.dtype != np.bool_ else ~arr
+                    if arr.dtype != np.bool_:
+                        arr += arr.dtype.type(41)
+                    R.mutations["ndarray-overwritten"] = R.mutations.get("ndarray-overwritten", 0) + 1
+            except (ValueError, TypeError):
+                pass
+        arrays.clear()
+        pending = frames[-1]
+        while pending:
+            lst = pending.pop()
+            if lst is shared:
+                busy[0] = False
+            if lst is shared and mrng.random() < 0.5:
+                continue  # left as it is until the next call re-uses it
+            others = [v for v in R.vars.values()]
+            kind = mrng.choice(["append", "append-own-result", "setitem", "setitem-own-result", "clear", "reverse", "del", "insert"])
+            if kind == "append" and others:
+                lst.append(mrng.choice(others))
+            elif kind == "append-own-result":
+                lst.append(outs[0])
+            elif kind == "setitem" and lst and others:
+                lst[mrng.randrange(len(lst))] = mrng.choice(others)
+            elif kind == "setitem-own-result" and lst:
+                lst[0] = outs[-1]
+            elif kind == "clear":
+                lst.clear()
+            elif kind == "reverse":
+                lst.reverse()
+            elif kind == "del" and lst:
+                del lst[mrng.randrange(len(lst))]
+            elif others:
+                lst.insert(0, mrng.choice(others))
+            R.mutations[kind] = R.mutations.get(kind, 0) + 1
+
     def var(r):
         make(r[0])
         return R.vars[(r[0], r[1])]
@@ -1303,6 +1418,13 @@ def realise(prog, rng: random.Random, style: str = "lazy", twins: bool = False, 
         for j in order:
             make(n["ins"][j][0])
         a = [None if r is None else R.vars[(r[0], r[1])] for r in n["ins"]]
+        frames.append([])
+        try:
+            construct(k, n, o, a)
+        finally:
+            frames.pop()
+
+    def construct(k, n, o, a):
 
         def callback(body):
             def cb(*formals):
@@ -1316,6 +1438,9 @@ def realise(prog, rng: random.Random, style: str = "lazy", twins: bool = False, 
                         create_upfront(frozenset(body["args"]))
                     res = [var(r) for r in body["res"]]
                     maybe_extra()
+                    if mutate:  # the list a callback returns is the caller's too: mutated once the constructor is back
+                        frames[-1].append(res)
+                        R.owned += 1
                     return res
                 finally:
                     depth[0] -= 1
@@ -1323,13 +1448,13 @@ def realise(prog, rng: random.Random, style: str = "lazy", twins: bool = False, 
             return cb
 
         if o == "init":
-            outs = [initializer(layout_view(np_const(n), n["attrs"].get("layout", "C")))]
+            outs = [initializer(own_array(layout_view(np_const(n), n["attrs"].get("layout", "C"))))]
         elif o == "Constant":
-            outs = [op.constant(value=layout_view(np_const(n), n["attrs"].get("layout", "C")))]
+            outs = [op.constant(value=own_array(layout_view(np_const(n), n["attrs"].get("layout", "C"))))]
         elif o == "Reshape":
             outs = [op.reshape(a[0], a[1])]
         elif o == "Scan":
-            outs = list(op.scan(a, body=callback(n["subs"][0]), num_scan_inputs=n["attrs"]["num_scan_inputs"]))
+            outs = list(op.scan(own(a), body=callback(n["subs"][0]), num_scan_inputs=n["attrs"]["num_scan_inputs"]))
         elif o == "Add":
             outs = [op.add(a[0], a[1])]
         elif o == "Mul":
@@ -1345,10 +1470,10 @@ def realise(prog, rng: random.Random, style: str = "lazy", twins: bool = False, 
         elif o == "LeakyRelu":
             outs = [op.leaky_relu(a[0], alpha=n["attrs"]["alpha"])]
         elif o == "LabelEncoder":
-            outs = [ml.label_encoder(a[0], keys_int64s=n["attrs"]["keys"], values_int64s=n["attrs"]["values"],
+            outs = [ml.label_encoder(a[0], keys_int64s=own_attr(n["attrs"]["keys"]), values_int64s=own_attr(n["attrs"]["values"]),
                                      default_int64=n["attrs"]["default"])]
         elif o == "Scaler":
-            outs = [ml.scaler(a[0], offset=[n["attrs"]["offset"]], scale=[n["attrs"]["scale"]])]
+            outs = [ml.scaler(a[0], offset=own_attr([n["attrs"]["offset"]]), scale=own_attr([n["attrs"]["scale"]]))]
         elif o == "Binarizer":
             outs = [ml.binarizer(a[0], threshold=n["attrs"]["threshold"])]
         elif o == "Gelu":
@@ -1364,11 +1489,17 @@ def realise(prog, rng: random.Random, style: str = "lazy", twins: bool = False, 
         elif o == "BitXor":
             outs = [op.bitwise_xor(a[0], a[1])]
         elif o == "Max":
-            outs = [op.max(a)]
+            outs = [op.max(own(a))]
         elif o == "Min":
-            outs = [op.min(a)]
+            outs = [op.min(own(a))]
+        elif o == "Sum":
+            outs = [op.sum(own(a))]
+        elif o == "Mean":
+            outs = [op.mean(own(a))]
+        elif o == "Einsum":
+            outs = [op.einsum(own(a), equation=n["attrs"]["equation"])]
         elif o == "Transpose":
-            outs = [op.transpose(a[0], perm=n["attrs"]["perm"])]
+            outs = [op.transpose(a[0], perm=own_attr(n["attrs"]["perm"]))]
         elif o == "Neg":
             outs = [op.neg(a[0])]
         elif o == "Abs":
@@ -1384,7 +1515,7 @@ def realise(prog, rng: random.Random, style: str = "lazy", twins: bool = False, 
         elif o == "Where":
             outs = [op.where(a[0], a[1], a[2])]
         elif o == "Concat":
-            outs = [op.concat(a, axis=n["attrs"]["axis"])]
+            outs = [op.concat(own(a), axis=n["attrs"]["axis"])]
         elif o == "Clip":
             outs = [op.clip(a[0], a[1], a[2])]
         elif o == "ReduceSum":
@@ -1401,12 +1532,13 @@ def realise(prog, rng: random.Random, style: str = "lazy", twins: bool = False, 
         elif o == "If":
             outs = list(op.if_(a[0], then_branch=callback(n["subs"][0]), else_branch=callback(n["subs"][1])))
         elif o == "Loop":
-            outs = list(op.loop(a[0], a[1], a[2:], body=callback(n["subs"][0])))
+            outs = list(op.loop(a[0], a[1], own(a[2:]), body=callback(n["subs"][0])))
         else:
             raise HarnessError(f"unknown operator {o}")
         if len(outs) != len(n["ty"]):
             raise ConstructorShapeMismatch(f"{o}: {len(outs)} outputs, abstract node has {len(n['ty'])}")
         register(k, outs)
+        disown(outs)
         maybe_extra()
 
     if twins:  # history: ==-equal but different attribute values, constructed first and never requested
